@@ -36,6 +36,15 @@ type Geom struct {
 	NVox    [][]int // [region-1][block-1]
 	Point   [][3]int // one representative voxel per region
 	blockOf map[[3]int]int
+	// query boxes of the bounded reads with their tables (see qbox.go)
+	QBoxes []QBox
+	BoxVox [][]int // [box][region-1] voxels of the region inside the box
+	BoxBlk [][]int // [box] blocks (1-based) whose extent meets the box
+	seed   int64
+	// ManyPts: >= 100 seeded points (a few per region, some outside the stored blocks) for the batch lookup
+	ManyPts [][3]int
+	// InitMap: initial supervoxel -> body mapping other than the identity (nil = identity)
+	InitMap map[uint64]uint64
 }
 
 // NewGeom builds the standard geometry with nExtra additional seeded boxes.  Regions:
@@ -46,7 +55,7 @@ func NewGeom(seed int64, small bool) *Geom { return NewGeomKind(seed, small, fal
 // NewGeomKind: with wholeBlock the small geometry gets a seventh region that is exactly
 // block 4 (so that a voxel write can make one octant of a parent block solid).
 func NewGeomKind(seed int64, small, wholeBlock bool) *Geom {
-	g := &Geom{BS: 32}
+	g := &Geom{BS: 32, seed: seed}
 	g.Blocks = [][3]int{{0, 0, 0}, {1, 0, 0}, {-1, 0, 0}, {0, 1, 0}}
 	if small {
 		// 6 regions: used by the exhaustive TLC configuration
@@ -76,11 +85,19 @@ func NewGeomKind(seed int64, small, wholeBlock bool) *Geom {
 		rng := rand.New(rand.NewSource(seed))
 		// seeded extra boxes (lowest priority among boxes, above defaults)
 		for i := 0; i < 3; i++ {
-			b := g.Blocks[rng.Intn(len(g.Blocks))]
-			x0 := b[0]*32 + rng.Intn(24)
-			y0 := b[1]*32 + rng.Intn(24)
-			z0 := b[2]*32 + rng.Intn(24)
-			g.Boxes = append(g.Boxes, Box{x0, y0, z0, x0 + 1 + rng.Intn(12), y0 + 1 + rng.Intn(7), z0 + 1 + rng.Intn(7)})
+			var nb Box
+			for {
+				b := g.Blocks[rng.Intn(len(g.Blocks))]
+				x0 := b[0]*32 + rng.Intn(24)
+				y0 := b[1]*32 + rng.Intn(24)
+				z0 := b[2]*32 + rng.Intn(24)
+				nb = Box{x0, y0, z0, x0 + 1 + rng.Intn(12), y0 + 1 + rng.Intn(7), z0 + 1 + rng.Intn(7)}
+				if g.boxHasOwnVoxel(nb) {
+					break
+				}
+				// wholly hidden behind the earlier boxes (it would be a region without voxels): draw again
+			}
+			g.Boxes = append(g.Boxes, nb)
 			g.R++
 			g.BoxReg = append(g.BoxReg, g.R)
 		}
@@ -95,6 +112,32 @@ func NewGeomCustom(bs int, blocks [][3]int, boxes []Box, boxReg []int, defReg []
 	g := &Geom{BS: bs, Blocks: blocks, Boxes: boxes, BoxReg: boxReg, DefReg: defReg, R: regions}
 	g.finish()
 	return g
+}
+
+// boxHasOwnVoxel: some voxel of the box lies in a block of the volume and in none of the boxes
+// chosen so far (those have priority).
+func (g *Geom) boxHasOwnVoxel(nb Box) bool {
+	blk := map[[3]int]bool{}
+	for _, b := range g.Blocks {
+		blk[b] = true
+	}
+	for z := nb.Z0; z <= nb.Z1; z++ {
+		for y := nb.Y0; y <= nb.Y1; y++ {
+		next:
+			for x := nb.X0; x <= nb.X1; x++ {
+				if !blk[[3]int{fdiv(x, g.BS), fdiv(y, g.BS), fdiv(z, g.BS)}] {
+					continue
+				}
+				for _, b := range g.Boxes {
+					if b.contains(x, y, z) {
+						continue next
+					}
+				}
+				return true
+			}
+		}
+	}
+	return false
 }
 
 func (g *Geom) finish() {
@@ -153,6 +196,16 @@ func (g *Geom) finish() {
 			panic(fmt.Sprintf("region %d has no voxels", r+1))
 		}
 	}
+	g.buildQBoxes(g.seed)
+	rng := rand.New(rand.NewSource(g.seed*31 + 5))
+	g.ManyPts = nil
+	for len(g.ManyPts) < 130 {
+		p := [3]int{g.Min[0] + rng.Intn(g.Size[0]), g.Min[1] + rng.Intn(g.Size[1]), g.Min[2] + rng.Intn(g.Size[2])}
+		g.ManyPts = append(g.ManyPts, p)
+	}
+	for r := 0; r < g.R; r++ {
+		g.ManyPts = append(g.ManyPts, g.Point[r])
+	}
 }
 
 func fdiv(a, b int) int {
@@ -199,7 +252,32 @@ func (g *Geom) TLAConstants(initSV []uint64) string {
 		}
 		fmt.Fprint(&sb, initSV[r])
 	}
-	sb.WriteString(">>\n====\n")
+	sb.WriteString(">>\n")
+	sb.WriteString(g.tlaBoxes())
+	if g.InitMap != nil {
+		// initial agglomeration other than the identity (substituted for Labelmap!InitMap)
+		var ks []uint64
+		for k := range g.InitMap {
+			ks = append(ks, k)
+		}
+		sort.Slice(ks, func(i, j int) bool { return ks[i] < ks[j] })
+		sb.WriteString("InitMapDef == [s \\in {")
+		for i, k := range ks {
+			if i > 0 {
+				sb.WriteString(", ")
+			}
+			fmt.Fprint(&sb, k)
+		}
+		sb.WriteString("} |-> CASE ")
+		for i, k := range ks {
+			if i > 0 {
+				sb.WriteString(" [] ")
+			}
+			fmt.Fprintf(&sb, "s = %d -> %d", k, g.InitMap[k])
+		}
+		sb.WriteString("]\n")
+	}
+	sb.WriteString("====\n")
 	return sb.String()
 }
 
